@@ -323,7 +323,7 @@ builtin_random(spif_charptr_t param)
         srand(rseed);
     }
     n = spiftool_num_words(param);
-    index = (int) (n * ((float) rand()) / (RAND_MAX + 1.0)) + 1;
+    index = (int) (n * ((double) rand()) / (RAND_MAX + 1.0)) + 1;
     D_PARSE(("random index == %lu\n", index));
 
     return (spiftool_get_word(index, param));
